@@ -130,6 +130,9 @@ func runEval(hdr Header, c any, src string) CaseResult {
 	}
 	res.Evals = 1
 	if err != nil {
+		if f := checkLoads(u, log, nil, src, c); f != nil {
+			res.Failures = append(res.Failures, *f)
+		}
 		if wantRes == "err" {
 			res.Nontrivial = true
 			res.Sample = map[string]any{"schema": u.concrete(), "expect": "Resolve error", "got": err.Error()}
@@ -143,6 +146,9 @@ func runEval(hdr Header, c any, src string) CaseResult {
 		res.Failures = append(res.Failures, Failure{Kind: "resolve", Source: src, Abstract: c, Concrete: u.concrete(),
 			Expected: "Resolve returns an error", Got: "nil error"})
 		return res
+	}
+	if f := checkLoads(u, log, cm, src, c); f != nil {
+		res.Failures = append(res.Failures, *f)
 	}
 	sawT, sawF := false, false
 	var sampleInst []any
@@ -184,4 +190,48 @@ func runEval(hdr Header, c any, src string) CaseResult {
 	res.Nontrivial = sawT && sawF
 	res.Sample = map[string]any{"schema": u.concrete(), "verdicts": sampleInst}
 	return res
+}
+
+// checkLoads compares the Loader call log with the specification: no URI is
+// requested twice, the root document is never requested, and (when the
+// specification predicts the set) exactly the needed documents are requested.
+func checkLoads(u *universe, log *loadLog, cm map[string]any, src string, c any) *Failure {
+	seen := map[string]bool{}
+	for _, k := range log.calls {
+		if seen[k] {
+			return &Failure{Kind: "loader-twice", Source: src, Abstract: c, Concrete: u.concrete(),
+				Expected: "each URI requested from the Loader at most once", Got: log.calls}
+		}
+		seen[k] = true
+		if k == u.baseURI {
+			return &Failure{Kind: "loader-root", Source: src, Abstract: c, Concrete: u.concrete(),
+				Expected: "the root document is never requested from the Loader", Got: log.calls}
+		}
+	}
+	if cm == nil {
+		return nil
+	}
+	lv, ok := cm["loads"]
+	if !ok {
+		return nil
+	}
+	want := map[string]bool{}
+	for _, x := range abs.Seq(lv) {
+		want[abs.URIText(x)] = true
+	}
+	same := len(want) == len(seen)
+	for k := range want {
+		if !seen[k] {
+			same = false
+		}
+	}
+	if !same {
+		ws := []string{}
+		for k := range want {
+			ws = append(ws, k)
+		}
+		return &Failure{Kind: "loader-set", Source: src, Abstract: c, Concrete: u.concrete(),
+			Expected: map[string]any{"loader calls (as a set)": ws}, Got: log.calls}
+	}
+	return nil
 }
